@@ -506,6 +506,42 @@ pub fn drive_c20(a: &Args, out: &mut Out) {
                 "variants":variants,"runs":runs}));
         }
     }
+    // an absolute deadline that has already passed (real clock): repeated calls on one thread and
+    // a call on a fresh thread must all return the same ops (nothing may be remembered between
+    // calls; with the deadline in the past every clock reading says "exceeded")
+    for round in 0..(if thorough { 40 } else { 6 }) {
+        let n = rng.range(30, 60);
+        let x: Vec<u32> = (0..n as u32).collect();
+        let e = rng.range(2, 4);
+        let y = gen::mutate(&mut rng, &x, e, n as u32 + 5);
+        for alg in ALGS {
+            let (x1, y1) = (x.clone(), y.clone());
+            let runs = std::thread::spawn(move || {
+                let past = std::time::Instant::now();
+                std::thread::sleep(std::time::Duration::from_millis(2));
+                let mut runs: Vec<Value> = vec![];
+                for k in 0..5 {
+                    if k == 3 {
+                        // an unrelated diff with its own (relative) timeout in between
+                        let _ = similar::TextDiff::configure().timeout(std::time::Duration::from_secs(5)).diff_chars("abcde", "abXde").ops().len();
+                    }
+                    runs.push(rec::guarded(|| ops_json(&similar::capture_diff_slices_deadline(alg, &x1, &y1, Some(past)))).unwrap_or(json!([[-1]])));
+                }
+                let (x2, y2) = (x1.clone(), y1.clone());
+                let fresh = std::thread::spawn(move || similar::capture_diff_slices_deadline(alg, &x2, &y2, Some(past))).join();
+                runs.push(match fresh {
+                    Ok(o) => ops_json(&o),
+                    Err(_) => json!([[-1]]),
+                });
+                runs
+            })
+            .join()
+            .unwrap_or_default();
+            let case = out.next_case();
+            out.emit(&json!({"ev":"determ","case":case,"alg":alg_name(alg),"old":seq_json(&x),"new":seq_json(&y),
+                "expired_deadline":true,"round":round,"variants":[],"runs":runs}));
+        }
+    }
     // views into one buffer (same start address, overlapping, nested) against separate copies of
     // the same values: the result may depend on the values only, not on where they live
     for i in 0..(if thorough { 3000 } else { 400 }) {
